@@ -96,6 +96,17 @@ def run(ctx):
             if o[0] == 'ok' and (refo is None or refo[0] != 'ok' or o[1]['file'] != refo[1]['file']):
                 ctx.violation('file-depends-on-chunk-size', {'file_seed': seed, 'rows': rows, 'input_chunk': repr(ic), 'len': len(o[1]['file']),
                                                              'reference_len': len(refo[1]['file']) if refo and refo[0] == 'ok' else None})
+    if ctx.tier == 'thorough':
+        # once: the library's own default output chunk size (2**32 bytes) gives the file every explicit size gives
+        r0 = _common.Rng(ctx.seed * 1000 + 900, 'file')
+        df0, _ = impl.simple_file(r0, vrl=8192, rows=9)
+        o_def = impl.outcome(lambda: impl.write_real(df0, out_chunk='library-default'))
+        r0 = _common.Rng(ctx.seed * 1000 + 900, 'file')
+        df1, _ = impl.simple_file(r0, vrl=8192, rows=9)
+        o_exp = impl.outcome(lambda: impl.write_real(df1, out_chunk=8192))
+        ctx.count('K-in', key=('library-default',))
+        if o_def[0] != 'ok' or o_exp[0] != 'ok' or o_def[1]['file'] != o_exp[1]['file']:
+            ctx.violation('file-depends-on-chunk-size', {'output_chunk': 'library default (2**32)', 'default': o_def[0], 'explicit': o_exp[0]})
     for k in range(n_real):
         seed = ctx.seed * 1000 + k
         rows = ctx.rng('rows%d' % k).randrange(1, 13)
